@@ -565,3 +565,36 @@ def option_edges(body, sites, which):
         if vs == [which]:
             out.append((s, d, lab))
     return out
+
+
+def value_chain(fb, b, op, depth=0, out=None):
+    """callees through which a value is produced, following the first argument of each call (iterator / builder chains), single-definition
+    copies, and the return value of same-crate helpers: [(body, term)], innermost last"""
+    if out is None:
+        out = []
+    if depth > 24:
+        return out
+    d = cfg.describe_operand(b, op)
+    if d['k'] == 'call':
+        t = d['term']
+        out.append((b, t))
+        name = cfg.callee_name(t) or ''
+        hb = fb.bodies.get(name)
+        if hb is not None and not hb.parent:
+            # the helper's result: follow what it returns
+            for (kind, bb, j, node) in hb.defs.get(0, []):
+                if kind == 'call':
+                    out.append((hb, node))
+                    if node['args']:
+                        value_chain(fb, hb, node['args'][0], depth + 1, out)
+                elif kind == 'stmt' and node['rv']['k'] in ('use', 'cast'):
+                    value_chain(fb, hb, node['rv']['op'], depth + 1, out)
+        if t['args']:
+            value_chain(fb, b, t['args'][0], depth + 1, out)
+    elif d['k'] == 'multi':
+        for (kind, bb, j, node) in d.get('defs', []):
+            if kind == 'call':
+                out.append((b, node))
+                if node['args']:
+                    value_chain(fb, b, node['args'][0], depth + 1, out)
+    return out
